@@ -249,7 +249,7 @@ def disc_surface(ntracks, spt, cat_total=None):
 DAMAGES = ['data-crc', 'id-crc', 'data-mark', 'deleted-bad-crc']
 
 
-def build_damaged(container, ntracks, spt, damaged, how, cat_total=None):
+def build_damaged(container, ntracks, spt, damaged, how, cat_total=None, stray=None):
     """damaged: set of (t, r) sectors; how: damage kind.  Returns file bytes."""
     surf = disc_surface(ntracks, spt, cat_total)
     enc = 'FM' if container == 'hfe-fm' else 'MFM'
@@ -259,6 +259,11 @@ def build_damaged(container, ntracks, spt, damaged, how, cat_total=None):
         for r in range(spt):
             o = (t * spt + r) * 256
             secs.append((t, 0, r, surf[o:o + 256]))
+        if how == 'stray':
+            # a well-formed sector (both CRCs good) recorded on physical track t whose ID names another cylinder/head/record
+            for (pt, pr, cc, ch, cr) in stray or []:
+                if pt == t:
+                    secs[pr] = (cc, ch, cr, (b'STRAY from physical track %d position %d claiming (%d,%d,%d) ' % (pt, pr, cc, ch, cr)).ljust(256, b'!'))
         idx = set(r for (tt, r) in damaged if tt == t)
         kw = {}
         if how == 'data-crc':
@@ -287,11 +292,14 @@ def w_image(case):
     try:
         container, nt, spt, how = case['container'], case['ntracks'], case['spt'], case['how']
         damaged = set(tuple(x) for x in case['damaged'])
-        data, surf = build_damaged(container, nt, spt, damaged, how, case.get('cat_total'))
+        data, surf = build_damaged(container, nt, spt, damaged, how, case.get('cat_total'), case.get('stray'))
         d = run.fresh_dir('c06')
         name = 'img.hfe' if container.startswith('hfe') else 'img.mfm'
         dfsrun.write(d, name, data)
         sig = 'C06:image:%s:%s' % (container, how)
+        if how == 'stray':
+            (pt, pr, cc, ch, cr) = case['stray'][0]
+            sig += ':%s-cylinder:%s' % ('higher' if cc > pt else 'lower' if cc < pt else 'same', 'head%d' % ch)
         for t in range(nt):
             for r in range(spt):
                 rr = dfsrun.dfs('plain', ['--file', name, 'dump-sector', '0', str(t), str(r)], d)
@@ -431,6 +439,18 @@ def fam_image(tier):
             for t in range(4):
                 for r in range(5):
                     yield {'w': 'image', 'container': container, 'ntracks': 4, 'spt': 5, 'how': how, 'damaged': [(t, r)], 'cat_total': 12}
+        # misaddressed but well-formed sectors: physical track pt carries, at position pr, a sector whose ID names cylinder cc
+        # (every other cylinder and one beyond the disc), head 0/1 and record {same, another existing one, a new one}
+        for pt in range(4):
+            for pr in (0, 2, 4):
+                for cc in [c for c in range(4) if c != pt] + [7]:
+                    for ch in (0, 1):
+                        for cr in (pr, (pr + 1) % 5, 5):
+                            for ct in (None, 12):
+                                yield {'w': 'image', 'container': container, 'ntracks': 4, 'spt': 5, 'how': 'stray', 'damaged': [(pt, pr)],
+                                       'stray': [[pt, pr, cc, ch, cr]], 'cat_total': ct}
+        for pr in (0, 2, 4):                      # same cylinder, wrong head only
+            yield {'w': 'image', 'container': container, 'ntracks': 4, 'spt': 5, 'how': 'stray', 'damaged': [(1, pr)], 'stray': [[1, pr, 1, 1, pr]]}
         # full-size tracks: 2 tracks of 10 (FM) / 18 (MFM) sectors, singles and same-record-on-all-tracks
         spt = 10 if container == 'hfe-fm' else 18
         for how in DAMAGES:
